@@ -389,7 +389,7 @@ Fixpoint lex_go (fuel : nat) (s : string) (line : N) (acc : list (token * N)) : 
   | O => LexErr line "lexer out of fuel"
   | S fuel =>
       match s with
-      | EmptyString => LexOk (rev ((TEof, line) :: acc))
+      | EmptyString => LexOk (rev' ((TEof, line) :: acc))
       | String c s1 =>
           match lex_one fuel c s1 line with
           | StTok t rest line' => lex_go fuel rest line' ((t, line) :: acc)
@@ -399,4 +399,5 @@ Fixpoint lex_go (fuel : nat) (s : string) (line : N) (acc : list (token * N)) : 
       end
   end.
 
+(* rev' is the linear-time reversal (List.rev is quadratic when extracted) *)
 Definition lex (s : string) : lex_result := lex_go (String.length s + 1) s 1%N [].
